@@ -93,6 +93,12 @@ pub struct Case {
     /// funding transaction is confirmed on the tracker's chain
     #[serde(default)]
     pub onchain: bool,
+    /// API group, raw entry point: the node runs with the operator filter [policy-*: warn] (every
+    /// rule is only logged, so a transaction that is not the canonical one is not refused); the
+    /// signature must then still be over the rebuilt BOLT-3 transaction and never over the
+    /// transaction the caller supplied
+    #[serde(default)]
+    pub permissive: bool,
 }
 
 fn hsel_strat() -> impl Strategy<Value = HSel> {
@@ -413,9 +419,10 @@ impl Prop for C04 {
         (
             (any::<bool>(), any::<bool>(), delay.clone(), delay, 0u8..4, any::<u8>(), prop_oneof![Just(0u16), Just(1u16), Just(65535u16), any::<u16>()]),
             (0u8..3, 0u8..3, 0u8..3, proptest::collection::vec(hsel_strat(), 0..5)),
-            (prop::bool::weighted(0.1), prop::bool::weighted(0.3), mutation_strat(), prop_oneof![12 => Just(None), 1 => Just(Some(0u8)), 1 => Just(Some(1u8))], prop::bool::weighted(0.15), prop::bool::weighted(0.35)),
+            (prop::bool::weighted(0.1), prop::bool::weighted(0.3), mutation_strat(), prop_oneof![12 => Just(None), 1 => Just(Some(0u8)), 1 => Just(Some(1u8))], prop::bool::weighted(0.15), prop::bool::weighted(0.35), prop::bool::weighted(0.2)),
         )
-            .prop_map(|((anchors, outbound, holder_delay, cp_delay, peer, dbid, vout), (value_sel, fee, to_cp, htlcs), (retry0, phase2, mutation, wire, perm_restart, onchain))| Case {
+            .prop_map(|((anchors, outbound, holder_delay, cp_delay, peer, dbid, vout), (value_sel, fee, to_cp, htlcs), (retry0, phase2, mutation, wire, perm_restart, onchain, permissive))| Case {
+                permissive: permissive && !phase2 && wire.is_none(),
                 onchain: onchain && wire.is_none(),
                 anchors, outbound, holder_delay, cp_delay, peer, dbid, vout, value_sel, fee, to_cp, htlcs, retry0, phase2, mutation, wire, perm_restart,
             })
@@ -429,7 +436,13 @@ impl Prop for C04 {
         if let Some(enc) = case.wire {
             return self.run_wire(case, enc, st, ctx);
         }
-        let mut w = if case.onchain { World::new_onchain(WorldCfg::default_testnet()) } else { World::new(WorldCfg::default_testnet()) };
+        let mut cfg = WorldCfg::default_testnet();
+        if case.permissive {
+            use lightning_signer::policy::filter::{FilterResult, FilterRule, PolicyFilter};
+            cfg.policy.filter.merge(PolicyFilter { rules: vec![FilterRule { tag: "policy-".to_string(), is_prefix: true, action: FilterResult::Warn }] });
+            st.class("permissive_filter");
+        }
+        let mut w = if case.onchain { World::new_onchain(cfg) } else { World::new(cfg) };
         st.class(if case.onchain { "onchain-factory" } else { "simple-factory" });
         let value = [3_000_000u64, 100_000, 16_000_000][case.value_sel as usize % 3];
         let spec = ChanSpec {
@@ -711,6 +724,19 @@ impl Prop for C04 {
                 let implied = Content { feerate: a.feerate, to_holder: to_holder_val, to_cp: to_cp_val, offered: a.content.offered.clone(), received: a.content.received.clone() };
                 let canon2 = chan.ref_cp_commitment(secp, a.n, &a.point, &implied);
                 let canon2_tx = canon2.trust().built_transaction().transaction.clone();
+                if case.permissive && serialize(&canon2_tx) != serialize(&tx) {
+                    // nothing is refused under this filter; what is signed is the rebuilt
+                    // transaction, which the supplied one is not
+                    st.class(format!("permissive:phase1:{}:accepted-noncanonical", mname));
+                    if secp.verify_ecdsa(&chan.commitment_sighash(&tx), &sig, &chan.holder_pubkeys.funding_pubkey).is_ok() {
+                        return ctx.report(st, Violation::new(
+                            format!("C04:phase1:permissive:signature-over-supplied-transaction:{}", mname),
+                            format!("{:?}: under a log-only policy filter the returned signature verifies against the supplied transaction, which is not the BOLT-3 transaction of the channel for its content. supplied={}", case, hex::encode(serialize(&tx))),
+                        ));
+                    }
+                    st.nontrivial_shape(("p1-permissive", setup_class, nh.min(2), mname));
+                    return Ok(());
+                }
                 if serialize(&canon2_tx) != serialize(&tx) {
                     return ctx.report(st, Violation::new(
                         format!("C04:phase1-accepted-noncanonical:{}", mname),
